@@ -710,6 +710,96 @@ def stage_big_sends(ctx, stats):
                         pass
 
 
+def stage_popen_short_writes(ctx, stats):
+    """C08 on the pipe transport when the pipe takes less than offered (a non-blocking stdin): send() returns the number of bytes it wrote,
+    so a caller that goes on with the rest delivers exactly its payload"""
+    import hashlib
+    from pexpect import popen_spawn
+    payload = bytes(range(256)) * ((1 << 20) // 256 if ctx.quick() else (4 << 20) // 256)
+    code = "import sys,hashlib; d=sys.stdin.buffer.read(); sys.stdout.write('%d %s' % (len(d), hashlib.md5(d).hexdigest())); sys.stdout.flush()"
+    p = popen_spawn.PopenSpawn([common.PY, '-c', code], timeout=20)
+    os.set_blocking(p.proc.stdin.fileno(), False)
+    data, rets, err = payload, [], None
+    t0 = time.time()
+    try:
+        while data and time.time() - t0 < 30:
+            try:
+                n = p.send(data)
+            except BlockingIOError:
+                n = 0
+            n = n or 0
+            rets.append(n)
+            if n == 0:
+                time.sleep(0.002)
+            data = data[n:]
+        os.set_blocking(p.proc.stdin.fileno(), True)
+        p.proc.stdin.close()
+        p.expect(pexpect.EOF, timeout=20)
+        got = p.before.decode().split()
+    except Exception as e:     # noqa
+        err = '%s: %s' % (type(e).__name__, str(e)[:100]); got = []
+    finally:
+        try:
+            p.proc.kill(); p.proc.wait(); p.proc.stdout.close()
+        except Exception:
+            pass
+    stats['popen_short_write_calls'] = len(rets)
+    want = [str(len(payload)), hashlib.md5(payload).hexdigest()]
+    if err or got != want:
+        common.report(ctx, 'c08/popen/short-writes', 'popen transport with a non-blocking stdin: %d send() calls returned %s... (sum %d of %d bytes offered in turn); the peer received %s, '
+                      'the payload is %s%s' % (len(rets), rets[:4], sum(rets), len(payload), got, want, ('; ' + err) if err else ''),
+                      dict(stage='stage_popen_short_writes', size=len(payload)))
+
+
+def stage_descendant_reader(ctx, stats):
+    """C08 when the process that was started has exited and a descendant of it still reads the terminal (a shell that backgrounds a job and
+    exits, a daemonising program): what is sent still goes to the terminal, all of it, in order"""
+    out = os.path.join(ctx.tmp, 'descendant_got')
+    code = ("import os,sys,signal,tty,time\n"
+            "signal.signal(signal.SIGHUP, signal.SIG_IGN)\n"
+            "tty.setraw(0)\n"
+            "if os.fork():\n"
+            "    os._exit(0)\n"
+            "f = open(sys.argv[1], 'wb', buffering=0)\n"
+            "f.write(b'R')\n"
+            "t0 = time.time()\n"
+            "while time.time() - t0 < 20:\n"
+            "    d = os.read(0, 4096)\n"
+            "    if not d: break\n"
+            "    f.write(d)\n")
+    p = pexpect.spawn(common.PY, ['-c', code, out], echo=False, timeout=5)
+    p.delaybeforesend = None
+    problems = []
+    try:
+        t0 = time.time()
+        while time.time() - t0 < 5 and not (os.path.exists(out) and open(out, 'rb').read(1) == b'R'):
+            time.sleep(0.01)
+        while time.time() - t0 < 5 and p.isalive():          # the started process is gone (and reaped); its child holds the terminal
+            time.sleep(0.01)
+        rets = [p.send(b'abc'), p.sendline(b'd\xc3\xa9f'), p.send(b'\x00\xffxy')]
+        p.sendcontrol('g')
+        want = b'Rabc' + b'd\xc3\xa9f' + os.linesep.encode() + b'\x00\xffxy\x07'
+        t0 = time.time()
+        got = b''
+        while time.time() - t0 < 3:
+            got = open(out, 'rb').read()
+            if len(got) >= len(want):
+                break
+            time.sleep(0.01)
+        if got != want or rets != [3, 4 + len(os.linesep), 4]:
+            problems.append('the descendant that reads the terminal received %r (sent: %r), the send calls returned %r' % (got[1:], want[1:], rets))
+    except Exception as e:      # noqa
+        problems.append('raised %s: %s' % (type(e).__name__, str(e)[:100]))
+    finally:
+        try:
+            p.close(force=True)
+        except Exception:
+            pass
+    stats['descendant_reader'] = 1
+    if problems:
+        common.report(ctx, 'c08/pty/descendant-reader', 'pty, the started process has exited and its child still reads the terminal: ' + problems[0], dict(stage='stage_descendant_reader'))
+
+
 def stage_log_edges(ctx, stats):
     """C11 at the edges of the transports:
     (a) small reads of output that a child left behind when it exited (popen, pty, fd): everything delivered is in logfile_read;
@@ -812,6 +902,8 @@ def run(ctx):
     sigs = set()
     if prop == 'C08':
         stage_big_sends(ctx, stats)
+        stage_popen_short_writes(ctx, stats)
+        stage_descendant_reader(ctx, stats)
     if prop == 'C11':
         stage_log_edges(ctx, stats)
     oracle = ORACLES[prop]
